@@ -13,3 +13,4 @@ import CtyModel.Props.C13
 import CtyModel.Props.C06
 import CtyModel.Props.C20
 import CtyModel.Props.C01
+import CtyModel.Props.C12
